@@ -136,6 +136,11 @@ template <class TM, class SM> struct Harness {
     { WS w1, w2; Eigen::VectorXd g1, g2; double c1 = opt.evaluate(x, g1, tc, rc, &w1), c2 = opt.evaluate(x, g2, tc, ZeroWaypointCost(), rc, &w2); ++c.st.comparisons;
       bool ok = c1 == c2 && g1.size() == g2.size(); for (int i = 0; ok && i < g1.size(); ++i) ok = g1(i) == g2(i);
       if (!ok) { fail("two-cost-overload", "evaluate(x,g,time,running) differs from the three-cost overload with a zero waypoint cost"); return; } }
+    // the same call on a workspace that last served a LARGER problem (and this one before that) returns the same cost and gradient (bitwise)
+    { Opt big; if (cfg.tm == 2) big.setTimeMap(&utm); if (cfg.sm >= 1) big.setSpatialMap(&usm); big.setOptimizationFlags(flags_of(cfg.mask)); big.setEnergyWeights(cfg.rho); big.setIntegralNumSteps(cfg.K);
+      Prob pb = opt_problem<D>(S, cfg.N + 2, 977, prob.t0);
+      if (big.setInitState(pb.T, pb.P, pb.t0, pb.bc)) { WS wd; Eigen::VectorXd gd, xb = big.generateInitialGuess(); (void)eval(x, gd, &wd); (void)big.evaluate(xb, gd, tc, wc, rc, &wd); double cd = eval(x, gd, &wd); ++c.st.comparisons;
+        if (!bits_equal(cd, cost) || gd.size() != g.size() || !bits_equal(gd.data(), g.data(), g.size())) { fail("reused-workspace", fmt("on a workspace that last served a problem with %d segments the cost is %.17g, on a fresh workspace %.17g", cfg.N + 2, cd, cost)); return; } } }
     // a copy-constructed and an assigned optimizer return the same cost and gradient (bitwise)
     { Opt cp(opt); Opt as; as.setIntegralNumSteps(5); as = opt; WS w1, w2; Eigen::VectorXd g1, g2; double c1 = cp.evaluate(x, g1, tc, wc, rc, &w1), c2 = as.evaluate(x, g2, tc, wc, rc, &w2); ++c.st.comparisons;
       if (!bits_equal(c1, cost) || !bits_equal(c2, cost) || g1.size() != g.size() || g2.size() != g.size() || !bits_equal(g1.data(), g.data(), g.size()) || !bits_equal(g2.data(), g.data(), g.size())) { fail("copy-evaluates-differently", fmt("copy-constructed: %.17g, assigned: %.17g, original: %.17g", c1, c2, cost)); return; } }
